@@ -5,6 +5,7 @@ import (
 	"encoding/base64"
 	"encoding/hex"
 	"fmt"
+	"go/constant"
 	"go/types"
 	"strings"
 
@@ -845,4 +846,93 @@ func registerBase64Intrinsics(in *Interp) {
 	I["math/rand/v2.IntN"] = func(st *State, fr *Frame, a []Value, _ ssa.Value) (Value, int) { return done(mkI64(0)) }
 	I["math/rand/v2.Int64N"] = func(st *State, fr *Frame, a []Value, _ ssa.Value) (Value, int) { return done(mkI64(0)) }
 	I["math/rand/v2.Shuffle"] = func(st *State, fr *Frame, a []Value, _ ssa.Value) (Value, int) { return done(nil) }
+}
+
+// ---- locating HTTP handler closures registered inside a big function (cmd/skylight's main) ----
+
+// findHandler returns the function literal passed to (*http.ServeMux).HandleFunc in fn with the given
+// route pattern: a constant pattern, or a concatenation whose constant right operand is the pattern.
+func findHandler(fn *ssa.Function, pattern string) *ssa.Function {
+	for _, b := range fn.Blocks {
+		for _, ins := range b.Instrs {
+			call, ok := ins.(*ssa.Call)
+			if !ok {
+				continue
+			}
+			callee := call.Call.StaticCallee()
+			if callee == nil || (callee.Name() != "HandleFunc" && callee.Name() != "Handle") {
+				continue
+			}
+			args := call.Call.Args
+			matched := false
+			var handler ssa.Value
+			for _, a := range args {
+				switch v := a.(type) {
+				case *ssa.Const:
+					if v.Value != nil && v.Value.Kind() == constant.String && constant.StringVal(v.Value) == pattern {
+						matched = true
+					}
+				case *ssa.BinOp:
+					if c, ok := v.Y.(*ssa.Const); ok && c.Value != nil && c.Value.Kind() == constant.String && constant.StringVal(c.Value) == pattern {
+						matched = true
+					}
+				}
+				if _, isSig := a.Type().Underlying().(*types.Signature); isSig {
+					handler = a
+				}
+			}
+			if !matched || handler == nil {
+				continue
+			}
+			for {
+				switch h := handler.(type) {
+				case *ssa.MakeClosure:
+					return h.Fn.(*ssa.Function)
+				case *ssa.Function:
+					return h
+				case *ssa.ChangeType:
+					handler = h.X
+					continue
+				}
+				break
+			}
+		}
+	}
+	return nil
+}
+
+func registerHandlerIntrinsics(in *Interp) {
+	I := in.intrins
+	// verifBindHandler(enclosing, pattern, names, ptrs...) func(http.ResponseWriter, *http.Request):
+	// the closure registered for `pattern` inside function `enclosing`, with its captured variables
+	// (by name, comma separated) bound to the given pointers; other captured variables are zero.
+	I["verif:verifBindHandler"] = func(st *State, fr *Frame, a []Value, _ ssa.Value) (Value, int) {
+		encl := st.in.mainPkg.Func(strArg(a[0]))
+		if encl == nil {
+			unsupported("verifBindHandler: no function %s", strArg(a[0]))
+		}
+		fn := findHandler(encl, strArg(a[1]))
+		if fn == nil {
+			unsupported("verifBindHandler: no handler registered for %q in %s", strArg(a[1]), strArg(a[0]))
+		}
+		var names []string
+		if s := strArg(a[2]); s != "" {
+			names = strings.Split(s, ",")
+		}
+		vals := st.sliceVals(a[3].(Slice))
+		env := make([]Value, len(fn.FreeVars))
+		for i, fv := range fn.FreeVars {
+			env[i] = zero(fv.Type())
+			if pt, ok := fv.Type().Underlying().(*types.Pointer); ok {
+				// captured variables are cells: unbound ones get a fresh zero-valued cell
+				env[i] = Ptr{Obj: st.alloc(pt.Elem())}
+			}
+			for k, n := range names {
+				if n == fv.Name() && k < len(vals) {
+					env[i] = vals[k].(Iface).V
+				}
+			}
+		}
+		return done(Func{Fn: fn, Env: env})
+	}
 }
